@@ -219,6 +219,9 @@ func CreateLossItvls(pattern string) (LossItvls, error) {
 		}
 		li.Itvls = append(li.Itvls, LossItvl{durS: dur, state: state})
 	}
+	if len(li.Itvls) == 0 { // e.g. only digits, or an empty pattern in a list
+		return LossItvls{}, fmt.Errorf("invalid loss pattern %q", pattern)
+	}
 	return li, nil
 }
 
